@@ -139,6 +139,12 @@ func c04deriveLogger(base *zap.Logger, variant, t int) *zap.Logger {
 		l = base.With(zap.Reflect("cfg", yieldJSON{t}), zap.Int("task", t))
 	case 7:
 		l = base.With(zap.Reflect("cfg", map[string]int{"t": t})).With(zap.Object("yo", yieldObj{t}), zap.Reflect("r2", yieldJSON{t + 100}))
+	case 8:
+		// lazy fields whose evaluation is a yield point: when the child is shared,
+		// its first users meet inside the evaluation
+		l = base.WithLazy(zap.Object("yo", yieldObj{t}), zap.Int("task", t))
+	case 9:
+		l = base.WithLazy(zap.Reflect("cfg", yieldJSON{t})).With(zap.Int("task", t)).WithLazy(zap.String("who", "lazy-on-top"))
 	}
 	return l
 }
@@ -510,7 +516,7 @@ func runC04(c *Ctx) {
 	}
 	var tasks []*c04task
 	for t := 0; t < nTasks; t++ {
-		tk := &c04task{variant: g.Draw(8)}
+		tk := &c04task{variant: g.Draw(10)}
 		if forked {
 			tk.fork = 1 + g.Draw(2)
 		}
